@@ -23,9 +23,14 @@ func (v *hasSideEffectVisitor) Visit(node ast.Node) (w ast.Visitor) {
 	}
 	switch n := node.(type) {
 	case *ast.CallExpr:
-		if _, isSig := v.info.TypeOf(n.Fun).(*types.Signature); isSig { // skip conversions
-			v.hasSideEffect = true
-			return nil
+		if tv, ok := v.info.Types[n.Fun]; !ok || !tv.IsType() { // skip conversions
+			// The function may be a value of a named function type.
+			if ft := v.info.TypeOf(n.Fun); ft != nil {
+				if _, isSig := ft.Underlying().(*types.Signature); isSig {
+					v.hasSideEffect = true
+					return nil
+				}
+			}
 		}
 		// Converting a slice to an array (or array pointer) panics if it is too short.
 		if t, at := v.info.TypeOf(n.Fun), typeOfArg(v.info, n); t != nil && at != nil {
